@@ -16,6 +16,12 @@ import z3
 from .mir import MirUnsupported, Module, Place, Operand, Const, INT_TYS
 
 
+def zstr(v):
+    """python string of a z3 string value (z3 prints backslashes and non-Latin-1 characters as \\u{..})"""
+    s = v.as_string() if hasattr(v, 'as_string') else str(v)
+    return re.sub(r'\\u\{([0-9a-fA-F]+)\}', lambda m: chr(int(m.group(1), 16)), s)
+
+
 class Inconclusive(Exception):
     pass
 
@@ -635,6 +641,8 @@ class Executor:
             bits = (hi - lo + 1).bit_length() - 1
             # constant shift amounts become multiplications / divisions; everything else goes through bit-vectors
             bs = z3.simplify(b)
+            if name == 'BitAnd' and z3.is_int_value(bs) and lo == 0 and (bs.as_long() + 1) & bs.as_long() == 0:
+                return a % (bs.as_long() + 1)          # mask with 2^k - 1
             if name.startswith('Shl') and z3.is_int_value(bs) and lo == 0:
                 return (a * (2 ** bs.as_long())) % (2 ** bits)
             if name.startswith('Shr') and z3.is_int_value(bs) and lo == 0:
